@@ -2,6 +2,7 @@ import CfbVerif.Phys.Zero
 import CfbVerif.Phys.Log
 import CfbVerif.Handle.Lemmas
 import CfbVerif.Phys.Grow
+import CfbVerif.Phys.MiniContent
 /-!
 # C08 — bytes gained by growing a stream read as zero, whatever was there before
 
@@ -133,5 +134,34 @@ theorem C08_regular_grow_zero {g g' : G} {s n : Nat} (j : JR g.p g.L)
     resize_regular_grow_zero j.jc.inv j.ss hstart hold hgrow hids _ nc tr (by exact hlen) hpres hq hb
   exact ⟨l, ids', hids, tr', hhd', hl', hz, hk⟩
 
+
+end CfbVerif.Props.C08
+
+namespace CfbVerif.Props.C08
+open CfbVerif.Raw CfbVerif.Phys
+
+/-! ### the mini-sector level: what `MiniChain::set_len` does to each mini sector it adds (`Phys/MiniContent.lean`) -/
+
+/-- **a mini sector added to a small stream reads as 64 zeros, whatever it held before** — mini sectors
+are taken from the free list of the MiniFAT without being reinitialised (they hold the bytes of the
+truncated or removed stream they belonged to); `miniChainGrow` therefore overwrites each one it
+adds with 64 zeros (`miniWriteAt … 0 (replicate MINI 0)`).  For every state whose sectors have the
+sector size and whose mini stream (the root entry's chain `root`) can be walked and contains mini
+sector `m`: afterwards the 64 bytes of `m` are zero, every other mini sector of the mini stream —
+every other small stream's data — holds what it held, and no sector outside the mini stream is
+touched.  (That `miniChainGrow` performs exactly this write on the mini sector `growOneMini`
+returned is its definition; that the mini sector lies inside the mini stream is `MiniFit` plus the
+lock-step assertion of the driver.) -/
+theorem C08_new_mini_sector_zero {p : P} (ss : SS p) {root : List Nat} (hroot : chainIds p p.rootStart = .ok root)
+    (hp : Present p root) (nd : root.Nodup) {m : Nat} (hm : m / p.per < root.length) :
+    ∃ p', miniWriteAt p m 0 (List.replicate MINI 0) = .ok p' ∧
+      miniBlk p' root m = List.replicate 64 0 ∧
+      (∀ m2, m2 ≠ m → m2 / p.per < root.length → miniBlk p' root m2 = miniBlk p root m2) ∧
+      (∀ i, i ∉ root → p'.sectors[i]? = p.sectors[i]?) := by
+  obtain ⟨p', hw, _, _, _, hout, _, _⟩ := miniZero_spec ss hroot hp nd hm
+  obtain ⟨p'', hw', hz, hfr⟩ := miniZero_blk ss hroot hp nd hm
+  rw [hw] at hw'
+  cases hw'
+  exact ⟨p', hw, hz, hfr, hout⟩
 
 end CfbVerif.Props.C08
